@@ -4,9 +4,11 @@
 //! Public API used by C12, C13, C15 (and C16): [`Format`], [`Doc`], [`Field`], [`corpus`], [`read_log`],
 //! [`read_log_bufread`], [`Opts`], the `render_*` functions in [`render`].
 
+pub mod adapter;
 pub mod corpus;
 pub mod drive;
 pub mod mutate;
+pub mod query;
 pub mod records;
 pub mod render;
 pub mod walk;
